@@ -1348,6 +1348,8 @@ class Validator:
                 pc = lf[2]
                 g = self.s.elems.get((k.ns, k.local))
                 cf = ['overlapping-wildcards'] if len(cands) > 1 else []
+                if cf:
+                    F.add('overlapping-wildcards')
                 if pc == 'skip':
                     plan.append((k, None, 'skip', cf))
                 elif g is not None:
